@@ -1,5 +1,6 @@
 (* C05 — recency order is exact: accesses promote, observations do not. *)
 Require Import LruV.A.OrderA LruV.B.OpsProps.
+Require Import LruV.B.StepB LruV.B.RefineLemmas LruV.B.RefineB LruV.B.CorollariesB.
 
 (* For EVERY operation, state and oracle: the keys after the step are the surviving old keys in their
    old relative order, followed by the promoted key, where `promoted` says exactly which operations
@@ -72,6 +73,12 @@ Example C05_example :
                             stepA 72 24 fixed s (Peek 1) o = Some (s2, o2, e2) /\ kids (ents s2) = [1; 2; 3].
 Proof. cbv zeta. eexists _, _, _, _, _, _. repeat split; vm_compute; reflexivity. Qed.
 
+(* at pointer level: following the links from the seal (Debug, a full forward iteration) on a coherent structure yields
+   exactly the abstract entry list, least-recently-used first, and leaves the structure untouched *)
+Theorem C05_pointer_level_iteration : forall E VS b oB, RIb b -> KU b ->
+  stepB E VS b DebugFmt oB = Some (b, OItems (map (fun e => Some (kv e)) (ents (absB b))), ev0).
+Proof. exact iteration_pointer_level. Qed.
+
 Print Assumptions C05_order.
 Print Assumptions C05_observers.
 Print Assumptions C05_peeks.
@@ -82,3 +89,4 @@ Print Assumptions C05_realloc_pointer.
 Print Assumptions C05_touch_refines.
 Print Assumptions C05_remove_refines.
 Print Assumptions C05_lru_is_head.
+Print Assumptions C05_pointer_level_iteration.
